@@ -18,9 +18,10 @@ import (
 // Calls (or a load of Field) must be in the backward slice (data + control
 // dependence) of what the function returns / of the named sink.
 type consult struct {
-	Calls []string
-	Field string
-	Why   string
+	Calls  []string
+	Field  string
+	Why    string
+	Direct bool // the input must be consulted by the function itself, not by a callee
 }
 
 // consultsInReturn checks that every consult is in the backward slice of fn's results,
